@@ -91,6 +91,11 @@ NegPair(x, y) == /\ x[1] = "Bin" /\ y[1] = "Bin" /\ x[3] = y[3] /\ x[4] = y[4]
                  /\ <<x[2], y[2]>> \in {<<"==", "!=">>, <<"===", "!==">>}
 NegLaw == <<"oneof", <<"ok", <<"arr", <<Bool(TRUE), Bool(FALSE)>>>>, <<"ANY">>>>, <<"ok", <<"arr", <<Bool(FALSE), Bool(TRUE)>>>>, <<"ANY">>>>,
             <<"err", <<"ANY">>>>>>
+\* "x!.k is an error exactly when x is null": asserting access on a number, string or boolean is no error (a time is a Go struct: missing fields are errors),
+\* whatever it yields
+AssertOnScalar(p, st) == /\ p[1] = "Sel" /\ p[4] = TRUE
+                         /\ LET r == Eval(p[2], st) IN r[1] = "ok" /\ r[2][1] \in {"num", "str", "bool", "nan", "inf"}
+LawOut2(p, o, st) == IF o[1] = "unspec" /\ AssertOnScalar(p, st) THEN <<"ok", <<"ANY">>, Eval(p[2], st)[3]>> ELSE o
 LawOut(p, o) == IF o[1] = "unspec" /\ p[1] = "Arr" /\ Len(p[2]) = 2 /\ NegPair(p[2][1], p[2][2]) THEN NegLaw ELSE o
 
 Next == \/ /\ tree = <<"seed">>
@@ -103,7 +108,7 @@ Next == \/ /\ tree = <<"seed">>
                 /\ d' = i
                 /\ toks' = Tok3(Unparse(p))
                 /\ data' = DataFor(i, p)
-                /\ out' = LawOut(p, Outcome(p, [this |-> NormMap(DataFor(i, p)), log |-> <<>>]))
+                /\ out' = LET st0 == [this |-> NormMap(DataFor(i, p)), log |-> <<>>] IN LawOut2(p, LawOut(p, Outcome(p, st0)), st0)
                 /\ fields' = FieldsOf(p)
 IsCase == tree[1] \notin {"seed", "group"}
 Spec == Init /\ [][Next]_vars
